@@ -464,10 +464,26 @@ def rule_i(ctx):
     for c in calls:
         kw = [k for k in c.keywords if k.arg == "interpolation"]
         if not kw:
-            continue
-        ctx.instance(R)
-        v = kw[0].value
-        vals = [v]
+            # options collected in a dict and spread into the call
+            vals = []
+            for k in c.keywords:
+                if k.arg is None and isinstance(k.value, ast.Name):
+                    d_ = k.value.id
+                    for a in ast.walk(f.node):
+                        if isinstance(a, ast.Assign):
+                            for t in a.targets:
+                                if isinstance(t, ast.Subscript) and isinstance(t.value, ast.Name) and t.value.id == d_ and isinstance(t.slice, ast.Constant) and t.slice.value == "interpolation":
+                                    vals.append(a.value)
+                                if isinstance(t, ast.Name) and t.id == d_ and isinstance(a.value, ast.Dict):
+                                    vals += [dv for dk, dv in zip(a.value.keys, a.value.values) if isinstance(dk, ast.Constant) and dk.value == "interpolation"]
+            if not vals:
+                continue
+            ctx.instance(R)
+            v = None
+        else:
+            ctx.instance(R)
+            v = kw[0].value
+            vals = [v]
         if isinstance(v, ast.Name):
             vals = [a.value for a in ast.walk(f.node) if isinstance(a, ast.Assign) and any(isinstance(t, ast.Name) and t.id == v.id for t in a.targets)]
             if v.id in f.params or not vals:
